@@ -142,6 +142,14 @@ func TestC15(t *testing.T) {
 		inner = append(inner, lang.Assign{N: "x", X: srcExpr})
 		names := []string{"x"}
 		aliases := 1
+		if srcProv != "literal" && rapid.Bool().Draw(rt, "stepsource") {
+			// the name the value came in under (a member of the host object, a
+			// variable the host set) is itself copied from and stepped: from then
+			// on it is a variable of the script, the copies made before are not touched
+			names = append(names, srcExpr.(lang.Name).N)
+			aliases++
+			col.Class("source-name-among-the-stepped:" + srcProv)
+		}
 		ncopy := rapid.IntRange(1, 3).Draw(rt, "ncopy")
 		observe := []lang.Expr{}
 		useFunc := false
